@@ -97,6 +97,19 @@ func (lv *lvCtx) escapes(fn *ssa.Function, v ssa.Value, within map[*ssa.BasicBlo
 				if why := walk(u, d+1); why != "" {
 					return why
 				}
+			case *ssa.FieldAddr:
+				// &v.f points into the same cell: keeping it keeps the cell
+				if u.X == x {
+					if why := walk(u, d+1); why != "" {
+						return why
+					}
+				}
+			case *ssa.IndexAddr:
+				if u.X == x {
+					if why := walk(u, d+1); why != "" {
+						return why
+					}
+				}
 			case *ssa.ChangeType:
 				if why := walk(u, d+1); why != "" {
 					return why
